@@ -167,7 +167,10 @@ func (s *Solver) Solve(o *Obligation) {
 	defer cancel()
 	cfgs := solverCfgs
 	if o.Smoke {
-		cfgs = solverCfgs[1:2] // cvc5 only for smoke
+		cfgs = solverCfgs[1:2] // cvc5 for smoke
+		if strings.Contains(o.Name, "#smoke[entry]") {
+			cfgs = solverCfgs[0:2] // background + precondition consistency: z3-new as well (any unsat = vacuous)
+		}
 	}
 	ch := make(chan solveResult, len(cfgs))
 	for _, c := range cfgs {
